@@ -129,8 +129,11 @@ def cases(ctx):
                 e = "None" if diff == 0 else str((-1 if dsign else 1) * (diff - 1) * 25)
                 yield dict(op="altitude_diff " + m, real=("pyModeS.adsb.altitude_diff", [m]), expect=e, tag="altdiff",
                            info=dict(diff=diff), trivial=(diff == 0))
-    # surface movement: exhaustive
-    for mov in range(128):
+    # surface movement: exhaustive, in a shuffled order (a decoder that builds its table lazily, in the order the codes
+    # arrive, is only right for an ascending sweep)
+    movs = list(range(128))
+    rng.shuffle(movs)
+    for mov in movs:
         for status in (0, 1):
             for trk in range(128):
                 if not ctx.thorough and (trk * 7 + mov) % 4:
